@@ -183,3 +183,118 @@ Theorem wdec_val_cursor wt bs v r : wdec_val wt bs = Some (v, r) ->
 Proof.
   intros H. apply suffix_shorter_pos; [eapply wdec_val_suffix | eapply wdec_val_shrinks]; eassumption.
 Qed.
+
+(* ================================================================== (B) proto/generic path search *)
+From DG Require Import ProtoGeneric ProtoGenericAlg.
+
+Lemma bytes_ok_skipn' n (l : list Z) : bytes_ok l -> bytes_ok (skipn n l).
+Proof.
+  intros H. unfold bytes_ok in *. rewrite <- (firstn_skipn n l) in H. apply Forall_app in H. tauto.
+Qed.
+
+Lemma bytes_ok_firstn' n (l : list Z) : bytes_ok l -> bytes_ok (firstn n l).
+Proof.
+  intros H. unfold bytes_ok in *. rewrite <- (firstn_skipn n l) in H. apply Forall_app in H. tauto.
+Qed.
+
+(* wire types whose Skip consumes at least one byte *)
+Definition wt_progress (wt : Z) : Prop := wt = 0 \/ wt = 1 \/ wt = 2 \/ wt = 5.
+
+Section GenericBounds.
+Variable buf : list Z.
+Hypothesis Hb : bytes_ok buf.
+
+Definition inb (rd : Z) : Prop := 0 <= rd <= plen buf.
+
+Lemma plen_nonneg' : 0 <= plen buf.
+Proof. unfold plen. lia. Qed.
+
+Lemma at_plen rd : inb rd -> plen (at_ buf rd) = plen buf - rd.
+Proof. intros H. unfold inb, at_, plen in *. rewrite skipn_length. lia. Qed.
+
+(* ---- (B1) the elementary reads *)
+
+Lemma cvar_inb rd v n : inb rd -> cvar buf rd = Some (v, n) ->
+  1 <= n <= 10 /\ rd + n <= plen buf /\ 0 <= v < 2 ^ 64.
+Proof.
+  intros Hrd. unfold cvar. destruct (varint_dec (at_ buf rd)) as [v0 n0] eqn:E.
+  destruct (Z.ltb_spec n0 0); [discriminate|]. intros HH; inversion HH; subst.
+  pose proof (varint_dec_result _ _ _ E) as Hr.
+  pose proof (varint_dec_value _ _ _ (bytes_ok_skipn' _ _ Hb) E) as Hv.
+  pose proof (at_plen rd Hrd) as Hl. unfold plen in Hl at 1. intuition lia.
+Qed.
+
+Lemma ctag_inb rd num wt n : inb rd -> ctag buf rd = Some (num, wt, n) ->
+  1 <= n <= 10 /\ rd + n <= plen buf /\ 1 <= num <= 2147483647 /\ 0 <= wt < 8.
+Proof.
+  intros Hrd. unfold ctag. destruct (cvar buf rd) as [[v n0]|] eqn:E; [|discriminate].
+  destruct (Z.gtb_spec (v / 8) 2147483647); cbn [orb]; [discriminate|].
+  destruct (Z.ltb_spec (v / 8) 1); [discriminate|].
+  intros HH; inversion HH; subst. apply (cvar_inb rd _ _ Hrd) in E.
+  pose proof (Z.mod_pos_bound v 8). intuition lia.
+Qed.
+
+Definition skres_inb (rd wt : Z) (r : skres) : Prop :=
+  match r with
+  | SkOk rd' => rd <= rd' <= plen buf /\ (wt_progress wt -> rd < rd')
+  | SkErr => True
+  | SkPanic => False
+  end.
+
+Lemma askip_inb rd wt : inb rd -> skres_inb rd wt (askip buf rd wt).
+Proof.
+  intros Hrd. unfold askip, skres_inb, wt_progress. pose proof Hrd as [H0 H1].
+  destruct (Z.eqb_spec wt 0) as [W0|W0].
+  { destruct (cvar buf rd) as [[v n]|] eqn:E; [|exact I]. apply (cvar_inb rd _ _ Hrd) in E. lia. }
+  destruct (Z.eqb_spec wt 5) as [W5|W5]. { destruct (Z.leb_spec (rd + 4) (plen buf)); [lia | exact I]. }
+  destruct (Z.eqb_spec wt 1) as [W1|W1]. { destruct (Z.leb_spec (rd + 8) (plen buf)); [lia | exact I]. }
+  destruct (Z.eqb_spec wt 2) as [W2|W2].
+  { destruct (cvar buf rd) as [[v n]|] eqn:E; [|exact I]. apply (cvar_inb rd _ _ Hrd) in E.
+    destruct (Z.gtb_spec v (plen buf - rd - n)); [exact I | lia]. }
+  lia.
+Qed.
+
+Lemma askip_never_panics rd wt : askip buf rd wt <> SkPanic.
+Proof.
+  unfold askip.
+  destruct (wt =? 0). { destruct (cvar buf rd) as [[v n]|]; discriminate. }
+  destruct (wt =? 5). { destruct (rd + 4 <=? plen buf); discriminate. }
+  destruct (wt =? 1). { destruct (rd + 8 <=? plen buf); discriminate. }
+  destruct (wt =? 2); [|discriminate].
+  destruct (cvar buf rd) as [[v n]|]; [|discriminate]. destruct (v >? plen buf - rd - n); discriminate.
+Qed.
+
+Lemma aread_length_inb rd len rd' : inb rd -> aread_length buf rd = Some (len, rd') ->
+  rd < rd' <= plen buf /\ - 2 ^ 63 <= len < 2 ^ 63.
+Proof.
+  intros Hrd. unfold aread_length. destruct (cvar buf rd) as [[v n]|] eqn:E; [|discriminate].
+  intros HH; inversion HH; subst. apply (cvar_inb rd _ _ Hrd) in E. split; [lia|].
+  unfold to_s. change (2 ^ (64 - 1)) with (2 ^ 63). change (2 ^ 64) with (2 * 2 ^ 63).
+  pose proof (Z.mod_pos_bound (v + 2 ^ 63) (2 * 2 ^ 63) ltac:(lia)). lia.
+Qed.
+
+Lemma aread_string_inb rd b rd' : inb rd -> aread_string buf rd = Some (b, rd') ->
+  rd < rd' <= plen buf /\ plen b <= rd' - rd /\ bytes_ok b.
+Proof.
+  intros Hrd. unfold aread_string. destruct (cvar buf rd) as [[m n]|] eqn:E; [|discriminate].
+  apply (cvar_inb rd _ _ Hrd) in E.
+  destruct (Z.gtb_spec m (plen buf - rd - n)); [discriminate|].
+  intros HH; inversion HH; subst. split; [lia|]. split.
+  - unfold plen. rewrite firstn_length. lia.
+  - apply bytes_ok_firstn', bytes_ok_skipn', Hb.
+Qed.
+
+Lemma aread_int_inb rd kk x rd' : inb rd -> aread_int buf rd kk = Some (x, rd') -> rd < rd' <= plen buf.
+Proof.
+  intros Hrd. unfold aread_int. pose proof Hrd as [H0 H1].
+  destruct ((kk =? 5) || (kk =? 17) || (kk =? 3) || (kk =? 18) || (kk =? 13) || (kk =? 4)).
+  { destruct (cvar buf rd) as [[u n]|] eqn:E; [|discriminate]. apply (cvar_inb rd _ _ Hrd) in E.
+    intros HH; inversion HH; subst. lia. }
+  destruct (kk =? 15). { destruct (Z.leb_spec (rd + 4) (plen buf)); [|discriminate]. intros HH; inversion HH; subst. lia. }
+  destruct (kk =? 16). { destruct (Z.leb_spec (rd + 8) (plen buf)); [|discriminate]. intros HH; inversion HH; subst. lia. }
+  destruct (kk =? 7). { destruct (Z.leb_spec (rd + 4) (plen buf)); [|discriminate]. intros HH; inversion HH; subst. lia. }
+  destruct (kk =? 6); [|discriminate].
+  destruct (Z.leb_spec (rd + 8) (plen buf)); [|discriminate]. intros HH; inversion HH; subst. lia.
+Qed.
+
+End GenericBounds.
